@@ -26,7 +26,7 @@ def _false(env):
 OFFS = [[0.5, -0.25, 3.0], [-1.0, 0.75, 4.5], [2.0, 1.0, 2.5], [0.25, 0.25, -3.0]]
 
 
-def _setup(env, ns, nt, labelling="first", mode="general", angle=None):
+def _setup(env, ns, nt, labelling="first", mode="general", angle=None, zx=0.5):
     """mode 'general': every coordinate and normal symbolic.  'targets': sources concrete (spread on a plane, normal +z),
     targets fully symbolic.  'normals': source positions and normals symbolic (unit), targets = first source + concrete
     offsets (so the offsets are concrete and the projections are linear in the normal)."""
@@ -43,7 +43,7 @@ def _setup(env, ns, nt, labelling="first", mode="general", angle=None):
                 pts.append([1.25 * k, 0.0, 0.0])
             else:
                 k = [q for q in range(n) if q not in src_idx].index(i)
-                pts.append([0.5, 0.125 * (1 if k % 2 == 0 else -1) * (1 + k // 2), env.real("h%d" % k, 0.5, 15)])
+                pts.append([zx, 0.125 * (1 if k % 2 == 0 else -1) * (1 + k // 2), env.real("h%d" % k, 0.5, 15)])
         elif mode == "general" or (mode == "targets" and not is_src) or (mode == "normals" and is_src):
             pts.append([env.real("p%d%s" % (i, a), -20, 20) for a in "xyz"])
         elif mode == "targets":
@@ -123,9 +123,9 @@ def _admissible(env, pts, nrm, i, j, voxel, maxt, ang, strict_cone=True):
     return env.and_(env.le(dist2, r * r), env.gt(proj, 0.0), _cone(env, ang, lat2, proj, "lt"))
 
 
-def h_pairs(env, ns=1, nt=2, direction="1to2", labelling="first", mode="general", angle=None):
+def h_pairs(env, ns=1, nt=2, direction="1to2", labelling="first", mode="general", angle=None, zx=0.5, near_limit=False, reference=False):
     mt = env.module("memthick")
-    pts, nrm, s1, s2, voxel, maxt, ang = _setup(env, ns, nt, labelling, mode, angle)
+    pts, nrm, s1, s2, voxel, maxt, ang = _setup(env, ns, nt, labelling, mode, angle, zx)
     n = ns + nt
     src = [i for i in range(n) if (s1[i] if direction == "1to2" else s2[i])]
     tgt = [i for i in range(n) if i not in src]
@@ -135,6 +135,11 @@ def h_pairs(env, ns=1, nt=2, direction="1to2", labelling="first", mode="general"
     for (a, b) in cand:       # boundary cases of the cone / forward tests excluded (measure zero; strict vs non-strict is not fixed by the property)
         d, dist2, proj, lat2 = _geom(env, pts, nrm, a, b)
         env.assume(env.and_(env.not_(env.eq(proj, 0.0)), _not_on_cone_boundary(env, ang, lat2, proj), env.not_(env.eq(dist2 * voxel * voxel, maxt * maxt))))
+    if near_limit:
+        # a membrane almost as thick as the limit: the first candidate pair lies between 96 % and 100 % of the maximum thickness
+        a0, b0 = cand[0]
+        d0 = _geom(env, pts, nrm, a0, b0)[1]
+        env.assume(env.and_(env.ge(d0 * voxel * voxel * 10000, maxt * maxt * 9216), env.lt(d0 * voxel * voxel, maxt * maxt), env.gt(_geom(env, pts, nrm, a0, b0)[2], 0.0)))
     P, Nm = _arr(env, pts), _arr(env, nrm)
     m1, m2 = np.array(s1, dtype=bool), np.array(s2, dtype=bool)
     thick, valid, pairs = mt.measure_thickness_cpu(P, Nm, m1, m2, voxel, max_thickness_nm=maxt, max_angle_degrees=ang, direction=direction)
@@ -164,6 +169,19 @@ def h_pairs(env, ns=1, nt=2, direction="1to2", labelling="first", mode="general"
             if j not in used:
                 env.check("unmatched_%d_%d_not_admissible" % (i, j), env.not_(_admissible(env, pts, nrm, i, j, voxel, maxt, ang)))
     env.note("matched", sorted(matched.items()))
+    if reference:
+        # "pairs are chosen greedily by increasing distance": the pairing itself is compared with a reference greedy matching
+        # over the admissible candidate pairs (the comparisons needed to order the candidates are decided by the solver on this path)
+        import functools
+        adm = [(i, j) for (i, j) in cand if bool(_admissible(env, pts, nrm, i, j, voxel, maxt, ang))]
+        adm.sort(key=functools.cmp_to_key(lambda p_, q_: -1 if bool(env.lt(_geom(env, pts, nrm, p_[0], p_[1])[1], _geom(env, pts, nrm, q_[0], q_[1])[1])) else 1))
+        ref, used_s, used_t = {}, set(), set()
+        for (i, j) in adm:
+            if i not in used_s and j not in used_t:
+                ref[i] = j
+                used_s.add(i)
+                used_t.add(j)
+        env.check("pairing_equals_reference_greedy_matching", env.true() if ref == matched else _false(env))
 
 
 def h_dense(env, n_lateral=27, angle=20.0):
@@ -236,7 +254,9 @@ def jobs(tier, seed):
          ("h_kernel", {"ns": 1, "nt": 2, "mode": "targets"}),
          ("h_pairs", {"ns": 1, "nt": 2, "direction": "1to2", "mode": "targets", "angle": 30.0}), ("h_pairs", {"ns": 1, "nt": 2, "direction": "1to2", "mode": "targets", "angle": 3.0}),
          ("h_kernel", {"ns": 1, "nt": 2, "mode": "targets", "angle": 20.0}), ("h_dense", {"n_lateral": 27, "angle": 20.0}),
-         ("h_pairs", {"ns": 2, "nt": 2, "direction": "1to2", "mode": "zline", "angle": 20.0}), ("h_pairs", {"ns": 2, "nt": 2, "direction": "2to1", "labelling": "targets_first", "mode": "zline", "angle": 25.0})]
+         ("h_pairs", {"ns": 2, "nt": 2, "direction": "1to2", "mode": "zline", "angle": 20.0}), ("h_pairs", {"ns": 2, "nt": 2, "direction": "2to1", "labelling": "targets_first", "mode": "zline", "angle": 25.0}),
+         ("h_pairs", {"ns": 2, "nt": 2, "direction": "1to2", "mode": "zline", "angle": 20.0, "zx": 0.875, "reference": True}),
+         ("h_pairs", {"ns": 1, "nt": 2, "direction": "1to2", "mode": "targets", "angle": 20.0, "near_limit": True})]
     if tier == "thorough":
         j += [("h_pairs", {"ns": 2, "nt": 2, "direction": "1to2", "mode": "normals"}), ("h_kernel", {"ns": 1, "nt": 2, "mode": "normals"}),("h_pairs", {"ns": 1, "nt": 2, "direction": "1to2"}), ("h_pairs", {"ns": 2, "nt": 2, "direction": "1to2", "mode": "targets"}),("h_pairs", {"ns": 2, "nt": 2, "direction": "1to2"}), ("h_pairs", {"ns": 2, "nt": 2, "direction": "2to1", "labelling": "targets_first"}), ("h_kernel", {"ns": 2, "nt": 2})]
     return j
